@@ -11,6 +11,10 @@ BUILD_ROOT = os.path.join(VERIF, ".build")
 HOOKS_DEF = '-DMI_VERIF_HOOKS="%s"' % os.path.join(HARNESS, "vf_hooks.h")
 WRAP = "-Wl,--wrap=mmap,--wrap=munmap,--wrap=mprotect,--wrap=madvise,--wrap=clock_gettime"
 
+# VERIF_COV=1: line/branch coverage of the allocator under the checks (tools/coverage.py); separate build directory, never used by a registered command
+COV = os.environ.get("VERIF_COV") == "1"
+COVF = ["--coverage"] if COV else []
+
 COMMON_C = ["-std=gnu11", "-g", "-fno-omit-frame-pointer", "-I" + os.path.join(REPO, "include")]
 
 # variant -> (compiler, mimalloc flags, sanitizer class used for the harness objects)
@@ -74,7 +78,7 @@ def harness_hash():
     return h.hexdigest()
 
 def build_dir():
-    d = os.path.join(BUILD_ROOT, hashlib.sha256((tree_hash() + harness_hash()).encode()).hexdigest()[:20])
+    d = os.path.join(BUILD_ROOT, hashlib.sha256((tree_hash() + harness_hash()).encode()).hexdigest()[:20] + ("-cov" if COV else ""))
     os.makedirs(d, exist_ok=True)
     return d
 
@@ -103,7 +107,7 @@ def mimalloc_obj(variant, extra_flags=(), tag=""):
     out = os.path.join(build_dir(), "mi_%s%s.o" % (variant, tag))
     with _lock_for(out):
         if not os.path.exists(out):
-            _run([cc] + COMMON_C + flags + list(extra_flags) + ["-c", os.path.join(REPO, "src", "static.c"), "-o", "@OUT@"], out)
+            _run([cc] + COMMON_C + flags + COVF + list(extra_flags) + ["-c", os.path.join(REPO, "src", "static.c"), "-o", "@OUT@"], out)
     return out
 
 def harness_obj(src, sanclass, extra_flags=(), tag=""):
@@ -117,7 +121,7 @@ def harness_obj(src, sanclass, extra_flags=(), tag=""):
                 cc = ["clang++" if clang else "g++", "-std=gnu++17"]
             else:
                 cc = ["clang" if clang else "gcc", "-std=gnu11"]
-            _run(cc + ["-O1", "-g", "-fno-omit-frame-pointer", "-I" + os.path.join(REPO, "include"), "-I" + HARNESS] + SAN_FLAGS[sanclass] + list(extra_flags) +
+            _run(cc + ["-O1", "-g", "-fno-omit-frame-pointer", "-I" + os.path.join(REPO, "include"), "-I" + HARNESS] + SAN_FLAGS[sanclass] + (["-DVF_COV"] if COV else []) + list(extra_flags) +
                  ["-c", os.path.join(HARNESS, src), "-o", "@OUT@"], out)
     return out
 
@@ -136,7 +140,7 @@ def driver(name, variant):
         objs = [harness_obj(s, sanclass) for s in DRIVERS[name]]
         mi = mimalloc_obj(variant)
         clang = sanclass.startswith("c")
-        _run(["clang++" if clang else "g++"] + SAN_FLAGS[sanclass] + ["-o", "@OUT@"] + objs + [mi, WRAP, "-lpthread", "-ldl", "-rdynamic"], out)
+        _run(["clang++" if clang else "g++"] + SAN_FLAGS[sanclass] + COVF + ["-o", "@OUT@"] + objs + [mi, WRAP, "-lpthread", "-ldl", "-rdynamic"], out)
     return out
 
 def static_driver(name, variant, extra_flags=()):
@@ -148,8 +152,8 @@ def static_driver(name, variant, extra_flags=()):
             return out
         common = harness_obj("vf_common.c", sanclass)
         obj = out + ".o"
-        _run([cc] + COMMON_C + flags + list(extra_flags) + ["-I" + os.path.join(REPO, "src"), "-I" + HARNESS, "-Wno-unused-function", "-c", os.path.join(HARNESS, name + ".c"), "-o", "@OUT@"], obj)
-        _run([cc] + SAN_FLAGS[sanclass] + ["-o", "@OUT@", obj, common, "-lpthread", "-ldl", "-rdynamic"], out)
+        _run([cc] + COMMON_C + flags + COVF + list(extra_flags) + ["-I" + os.path.join(REPO, "src"), "-I" + HARNESS, "-Wno-unused-function", "-c", os.path.join(HARNESS, name + ".c"), "-o", "@OUT@"], obj)
+        _run([cc] + SAN_FLAGS[sanclass] + COVF + ["-o", "@OUT@", obj, common, "-lpthread", "-ldl", "-rdynamic"], out)
     return out
 
 OVR_SO_FLAGS = ["-fPIC", "-fvisibility=hidden", "-ftls-model=initial-exec", "-DMI_MALLOC_OVERRIDE", "-DMI_SHARED_LIB", "-DMI_SHARED_LIB_EXPORT"]
@@ -159,14 +163,14 @@ def override_lib(kind="rel"):
     with _lock_for(out):
         if not os.path.exists(out):
             fl = ["-O2", "-DNDEBUG"] if kind == "rel" else ["-O1", "-DMI_DEBUG=2"]
-            _run(["gcc"] + COMMON_C + fl + OVR_SO_FLAGS + ["-shared", os.path.join(REPO, "src", "static.c"), "-o", "@OUT@", "-lpthread"], out)
+            _run(["gcc"] + COMMON_C + fl + COVF + OVR_SO_FLAGS + ["-shared", os.path.join(REPO, "src", "static.c"), "-o", "@OUT@", "-lpthread"], out)
     return out
 def override_obj():
     """the static override object (like CMake's mimalloc-obj target)"""
     out = os.path.join(build_dir(), "mi_ovr_static.o")
     with _lock_for(out):
         if not os.path.exists(out):
-            _run(["gcc"] + COMMON_C + ["-O2", "-DNDEBUG", "-DMI_MALLOC_OVERRIDE", "-c", os.path.join(REPO, "src", "static.c"), "-o", "@OUT@"], out)
+            _run(["gcc"] + COMMON_C + COVF + ["-O2", "-DNDEBUG", "-DMI_MALLOC_OVERRIDE", "-c", os.path.join(REPO, "src", "static.c"), "-o", "@OUT@"], out)
     return out
 def ovr_program(name, static=False):
     """test programs that use only the platform's allocation entry points (no mimalloc headers)"""
@@ -177,7 +181,7 @@ def ovr_program(name, static=False):
         if not os.path.exists(out):
             cc = ["g++", "-std=gnu++17"] if cxx else ["gcc", "-std=gnu11"]
             if static:
-                _run(cc + ["-O1", "-g", "-w", "-o", "@OUT@", override_obj(), src, "-lpthread", "-ldl", "-rdynamic"], out)   # the override object comes first on the link line
+                _run(cc + COVF + ["-O1", "-g", "-w", "-o", "@OUT@", override_obj(), src, "-lpthread", "-ldl", "-rdynamic"], out)   # the override object comes first on the link line
             else:
                 _run(cc + ["-O1", "-g", "-w", "-o", "@OUT@", src, "-ldl"], out)
     return out
